@@ -355,17 +355,22 @@ def gen_cases(seed, tier):
         return {'rows': [{'pattern': 'UBER' + mod, 'merchant': 'With Modifier', 'category': 'A', 'subcategory': 'a', 'tags': ['m']},
                          {'pattern': 'UBER', 'merchant': 'Plain', 'category': 'B', 'subcategory': '', 'tags': []}], 'tfs': []}
 
-    def btx(a=6432, date='2025-01-15'):
+    def btx(a=51456, date='2025-01-15'):        # 100.5 in ticks of 1/512
         return {'d': 'Uber 77', 'a': a, 'date': date, 'field': None, 'source': None, 'location': None}
     for op in ('>', '>=', '<', '<=', '='):
-        cases.append({'kind': 'csv', 'file': brow(f'[amount{op}100.5]'), 'txns': [btx(a) for a in (6431, 6432, 6433, -6432, None)]})
-    cases.append({'kind': 'csv', 'file': brow('[amount:50-200]'), 'txns': [btx(a) for a in (3199, 3200, 3201, 12799, 12800, 12801)]})
+        cases.append({'kind': 'csv', 'file': brow(f'[amount{op}100.5]'), 'txns': [btx(a) for a in (51455, 51456, 51457, 51448, 51464, -51456, None)]})
+    # [amount=N] is "within less than one cent": amounts at N +- 1/512 .. 1/64 straddle the tolerance edge (5/512 < 0.01 < 6/512)
+    for n in ('100.5', '10', '0'):
+        base = int(float(n) * 512)
+        cases.append({'kind': 'csv', 'file': brow(f'[amount={n}]'),
+                      'txns': [btx(base + d) for d in (0, 1, -1, 2, -2, 3, -3, 4, -4, 5, -5, 6, -6, 7, 8, -8, 51, 52)]})
+    cases.append({'kind': 'csv', 'file': brow('[amount:50-200]'), 'txns': [btx(a) for a in (25599, 25600, 25601, 102399, 102400, 102401)]})
     cases.append({'kind': 'csv', 'file': brow('[date=2025-01-15]'), 'txns': [btx(date=d) for d in ('2025-01-14', '2025-01-15', '2025-01-16', None)]})
     cases.append({'kind': 'csv', 'file': brow('[date:2025-01-15..2025-03-01]'),
                   'txns': [btx(date=d) for d in ('2025-01-14', '2025-01-15', '2025-02-28', '2025-03-01', '2025-03-02')]})
     cases.append({'kind': 'csv', 'file': brow('[month=3]'), 'txns': [btx(date=d) for d in ('2025-02-28', '2025-03-01', '2025-03-31', '2025-04-01')]})
     cases.append({'kind': 'csv', 'file': brow('[amount>50][date:2024-12-31..2025-01-15][month=1]'),
-                  'txns': [btx(a, d) for a in (3200, 3201) for d in ('2024-12-31', '2025-01-15', '2025-01-16')]})
+                  'txns': [btx(a, d) for a in (25600, 25601) for d in ('2024-12-31', '2025-01-15', '2025-01-16')]})
     # hand-written corner files: tag-only first, skipped rule, winner third; F1 witness
     cases.append({'kind': 'csv', 'file': {'rows': [{'pattern': '(UBER|LYFT)', 'merchant': 'Rides', 'category': 'Transport',
                                                      'subcategory': 'Rideshare', 'tags': []}], 'tfs': []},
@@ -382,7 +387,8 @@ def main(tier):
         '(checked directly: deleting non-matching rules / appending rules never changed a result)',
         'rule files are taken as parsed by the implementation (MerchantEngine.parse, load_merchant_rules): parsing is C17/C14',
         'strings are bytes; str.lower/upper/strip/title modelled for ASCII; generated text is ASCII',
-        'amounts are exact ticks of 1/64 (dyadic), so float comparisons in modifiers are exact; [date:lastNdays] is not generated',
+        'amounts are exact ticks of 1/512 (dyadic), so float comparisons in modifiers (incl. the 0.01 tolerance of [amount=N]) are exact; '
+        '[date:lastNdays] is not generated',
         'tools/engine2coq.py renders _is_expression_pattern / calculate_specificity faithfully (validated through the correspondence)']
     tfails = regen_engine_gen()
     res = run.proof_step(COQ_FILES, extra_trusted=[
